@@ -143,7 +143,15 @@ class FrameItem(EFLRItem):
             If direction cannot be determined, it is assigned to None.
         """
 
+        if np.issubdtype(index_data.dtype, np.integer):
+            # differences of unsigned or narrow integers must not wrap around
+            index_data = index_data.astype(np.int64)
+
         diff = np.diff(index_data)
+        if diff.size == 0:
+            # a single row - neither spacing nor direction can be determined
+            return None, None
+
         diff_unique = np.unique(diff)
 
         if (diff_unique == 0).all():
